@@ -229,15 +229,24 @@ def c15_reap(ctx):
     rf = F.fn(REMOVE_FINISHED)
     if not sd or not rf:
         return [undecided('ORD-C15-reap', 'anchor', 'schedule_dormant / remove_finished_threads not found')]
-    dom = sd.dominators()
-    reap = [bb for bb, t in sd.calls() if (t['func'].get('fn') or '') == REMOVE_FINISHED]
-    locks = [bb for bb, t, kind, cls in lock_sites(sd) if cls == 'SchedulerCore.threads']
-    if not reap:
-        out.append(bad('ORD-C15-reap', 'schedule_dormant|reap-first', 'schedule_dormant no longer calls remove_finished_threads: a panicked pool thread keeps its slot for ever', fn=sd.name))
-    elif locks and all(any(r in dom.get(l, set()) for r in reap) for l in locks):
-        out.append(ok('ORD-C15-reap', 'schedule_dormant|reap-first', 'remove_finished_threads dominates the threads lock', fn=sd.name))
+    # Dead threads leave the table before the table is measured against the maximum: on the paths of one scheduling request (schedule_thread
+    # with schedule_dormant and spawn_thread_if_less_than_maximum inlined, dsa/poolview.py) every way to the room test passes the reaping.
+    # Where in that request the reaping sits - first thing, or only once no dormant thread was found - does not matter: a finished thread
+    # died with its busy flag set and is never mistaken for a dormant one.
+    from .poolview import pool_view
+    pv = pool_view(ctx)
+    key = 'schedule_dormant|reap-first'
+    if not pv.ok:
+        out.append(undecided('ORD-C15-reap', key, pv.why))
+    elif not pv.reaps:
+        out.append(bad('ORD-C15-reap', key, 'a scheduling request no longer calls remove_finished_threads: a panicked pool thread keeps its slot for ever', fn=sd.name))
+    elif not pv.counts:
+        out.append(undecided('ORD-C15-reap', key, 'the comparison of the thread table with the maximum was not found on the paths of a scheduling request'))
+    elif all(pv.always_between(0, {c}, pv.reaps) for c in pv.counts):
+        out.append(ok('ORD-C15-reap', key, 'every path of a scheduling request to the room test passes remove_finished_threads (%s)' % pv.where(), fn=sd.name))
     else:
-        out.append(bad('ORD-C15-reap', 'schedule_dormant|reap-first', 'dead threads are not reaped before the thread table is searched', fn=sd.name))
+        out.append(bad('ORD-C15-reap', key, 'a scheduling request can compare the thread table with the maximum before the finished threads were taken out of it: '
+                       'a pool whose threads were killed by panicking jobs looks full, nothing is spawned and the request is dropped', fn=sd.name))
     # what "finished" means: the OS thread has exited, however it exited.  A flag the thread body sets after its loop is never set by a
     # thread that a panicking job killed - exactly the threads this function exists for
     isf = F.fn('desync::SchedulerThread::is_finished')
